@@ -61,6 +61,10 @@ func (a *AndStrategy) Compute(snapshots <-chan *asset.Snapshot) <-chan Action {
 				result <- Hold
 			}
 		}
+
+		for _, source := range sources {
+			go helper.Drain(source)
+		}
 	}()
 
 	return result
